@@ -108,3 +108,74 @@ void h_pton_ip4_quad(void)
     V_ASSERT(r <= 16, "irc_pton_ip4 never claims to have read past the terminator");
     V_CANARY();
 }
+
+/* ---------------------------------------------------------------------------------------
+ * C13: CIDR and wildcard texts yield the documented prefix length and network bits.
+ * The text is the printer's own rendering of a (sharded like C12) followed by "/n", or the
+ * first k groups followed by ":*", or "*".  irc_pton(.., &bits, ..) must consume all of it.
+ */
+unsigned int in_plen;       /* prefix length 0..128 */
+unsigned int in_wgroups;    /* wildcard: number of leading groups kept, 1..7 */
+
+void h_pton_cidr(void)
+{
+    char buf[IRC_NTOP_MAX + 8];
+    irc_inaddr back, want;
+    unsigned int n, r, bits = 999, i, p;
+    V_IN(in_a); V_IN(in_plen);
+    V_ASSUME(shard_ok(&in_a));
+    V_ASSUME(!spec_is_ipv4(&in_a));            /* the dotted-quad /n form is h_pton_cidr4 */
+    V_ASSUME(in_plen <= 128);
+    ctype_init();
+    n = irc_ntop(buf, IRC_NTOP_MAX, &in_a);
+    V_ASSUME(n < IRC_NTOP_MAX);                /* C12 */
+    p = n;
+    buf[p++] = '/';
+    {   /* decimal rendering without division (n <= 128) */
+        unsigned h = in_plen >= 100 ? 1 : 0, rem = in_plen - 100 * h, t = 0, k;
+        for (k = 0; k < 9; k++) if (rem >= 10) { rem -= 10; t++; }
+        if (h) buf[p++] = '1';
+        if (h || t) buf[p++] = (char)('0' + t);
+        buf[p++] = (char)('0' + rem);
+    }
+    buf[p] = '\0';
+    r = irc_pton(&back, &bits, buf, 0);
+    V_ASSERT(r == p, "C13: a CIDR text x:y::/n is accepted as a whole");
+    V_ASSERT(bits == in_plen, "C13: ... with the documented prefix length");
+    spec_canon(&want, &in_a);
+    V_ASSERT(spec_addr_eq(&back, &want), "C13: ... and the network bits written");
+    (void)i;
+    V_CANARY();
+}
+
+void h_pton_wild(void)
+{
+    char buf[48];
+    irc_inaddr back;
+    unsigned int r, bits = 999, i, p = 0, k;
+    static const char hexd[] = "0123456789abcdef";
+    V_IN(in_a); V_IN(in_wgroups);
+    V_ASSUME(in_wgroups >= 1 && in_wgroups <= 7);
+    ctype_init();
+    for (k = 0; k < 7; k++) {
+        if (k < in_wgroups) {
+            unsigned v = ntohs(in_a.in6[k]);
+            if (v >= 0x1000) buf[p++] = hexd[v >> 12];
+            if (v >= 0x100) buf[p++] = hexd[(v >> 8) & 15];
+            if (v >= 0x10) buf[p++] = hexd[(v >> 4) & 15];
+            buf[p++] = hexd[v & 15];
+            buf[p++] = ':';
+        }
+    }
+    buf[p++] = '*'; buf[p] = '\0';
+    r = irc_pton(&back, &bits, buf, 0);
+    V_ASSERT(r == p, "C13: a wildcard text x:y:* is accepted as a whole");
+    V_ASSERT(bits == 16 * in_wgroups, "C13: ... with 16 bits per group written");
+    for (i = 0; i < 8; i++)
+        V_ASSERT(back.in6[i] == (i < in_wgroups ? in_a.in6[i] : 0), "C13: ... the groups written are the network bits, the rest is zero");
+    /* "*" alone */
+    buf[0] = '*'; buf[1] = '\0'; bits = 999;
+    r = irc_pton(&back, &bits, buf, 0);
+    V_ASSERT(r == 1 && bits == 0, "C13: '*' matches everything (0 bits)");
+    V_CANARY();
+}
